@@ -97,7 +97,8 @@ def strip_final_newline(s: str):
     return s
 
 def same_mod_final_newline(a: str, b: str):
-    return strip_final_newline(a) == strip_final_newline(b)
+    """equal up to the presence of a final newline: equal after removing at most one trailing line terminator from either side"""
+    return bool({a, strip_final_newline(a)} & {b, strip_final_newline(b)})
 
 def tokens(src: str):
     t = ast.parse(src); c = collections.Counter()
